@@ -554,7 +554,7 @@ func spell(name, how string) string {
 }
 
 // altKinds for the document member: what the signed and the unsigned document are
-var c3AltKinds = []string{"complete-better", "complete-worse", "partial-levels", "partial-second", "partial-nextUpdate"}
+var c3AltKinds = []string{"complete-better", "complete-worse", "partial-levels", "partial-second", "partial-nextUpdate", "signed-has-other-id", "signed-has-other-version"}
 
 // setAlt installs the signed document and the alternative for one alt kind; returns the TEE_TCB_SVN[1] need.
 func altNeed(kind string, q bool) int {
@@ -580,6 +580,12 @@ func setAlt(s *world.Spec, q bool, kind string) []byte {
 		case "complete-worse":
 			bad := badQe(good)
 			return bad.JSON()
+		case "signed-has-other-id": // a genuinely signed document of another kind (the SGX QE's identity); the look-alike claims the TD QE
+			s.Qe.ID = "QE"
+			return good.JSON()
+		case "signed-has-other-version":
+			s.Qe.Version = good.Version - 1
+			return good.JSON()
 		case "partial-levels":
 			s.Qe = badQe(good)
 			return onlyKey(good.JSON(), "tcbLevels")
@@ -601,6 +607,12 @@ func setAlt(s *world.Spec, q bool, kind string) []byte {
 	case "complete-worse":
 		bad := badTcb(good)
 		return bad.JSON()
+	case "signed-has-other-id": // a genuinely signed TCB Info of another kind (SGX); the look-alike claims TDX
+		s.Tcb.ID = "SGX"
+		return good.JSON()
+	case "signed-has-other-version":
+		s.Tcb.Version = good.Version - 1
+		return good.JSON()
 	case "partial-levels":
 		s.Tcb.Levels = append([]world.Level{}, good.Levels...)
 		s.Tcb.Levels[honestTcbIdx(s)].Status = "OutOfDate"
